@@ -412,7 +412,9 @@ func syncScenarios() []syncScenario {
 				after:   func(c *imapclient.Client) error { return c.Login(marker(6)+"\n", "pw").Wait() }},
 			syncScenario{name: "append-mailbox-literal-refused/" + ref, refuse: map[int]string{0: ref},
 				callers: []func(*imapclient.Client) error{func(c *imapclient.Client) error {
-					cmd := c.Append(marker(7)+"\n", int64(len(marker(3))), nil)
+					// a mailbox name only becomes a literal when it is longer than a quoted string may be
+					// (control characters are absorbed by the modified UTF-7 encoding)
+					cmd := c.Append(marker(7)+strings.Repeat("m", 5000), int64(len(marker(3))), nil)
 					cmd.Write([]byte(marker(3)))
 					cmd.Close()
 					_, err := cmd.Wait()
@@ -427,6 +429,7 @@ func syncScenarios() []syncScenario {
 type syncObs struct {
 	Problems []problem
 	Results  []string
+	Wire     string // what the client wrote (shown by --replay)
 }
 
 func syncBody(sc syncScenario) func() interface{} {
@@ -501,6 +504,7 @@ func syncBody(sc syncScenario) func() interface{} {
 		}
 		c.Close()
 		obs.Results = results
+		obs.Wire = vk.Q(string(stream))
 		if refusedAt >= 0 && len(sc.callers) == 1 {
 			// single caller: whatever follows the refusal must be the start of a NEW command
 			rest := string(stream[refusedAt:])
